@@ -89,6 +89,8 @@ class Resolver:
         self._memo = {}
         self._inprogress = set()
         self._loop_hits = set()
+        self._trunc = 0
+        self._memo_trunc = {}
 
     # ---- reaching definitions of a local at a point -------------------------------------
     def reaching(self, l, b, idx):
@@ -200,6 +202,7 @@ class Resolver:
     def local(self, l, at, depth=0):
         fn = self.fn
         if depth > MAX_DEPTH:
+            self._trunc += 1            # a value cut off here must not be remembered as the value of the enclosing keys
             return ("local", l)
         if fn.is_param(l):
             # parameters may be reassigned, but that is rare; treat partial/whole writes conservatively
@@ -214,14 +217,14 @@ class Resolver:
         sd = fn.single_def(l)
         if sd is not None:
             key = ("sd", l)
-            if key in self._memo:
+            if key in self._memo and not (key in self._memo_trunc and depth < self._memo_trunc[key] and key not in self._inprogress):
                 return self._memo_get(key)
-            return self._memo_compute(key, l, lambda: self._def_expr(sd, depth + 1))
+            return self._memo_compute(key, l, lambda: self._def_expr(sd, depth + 1), depth)
         rs = self.reaching(l, at[0], at[1])
         if not rs:
             return ("local", l)
         key = ("phi", l, tuple(sorted(map(str, rs))))
-        if key in self._memo:
+        if key in self._memo and not (key in self._memo_trunc and depth < self._memo_trunc[key] and key not in self._inprogress):
             return self._memo_get(key)
 
         def compute():
@@ -232,7 +235,7 @@ class Resolver:
                 else:
                     es.append(self._def_expr(d, depth + 1))
             return es[0] if len(es) == 1 else ("phi", es, l)
-        return self._memo_compute(key, l, compute)
+        return self._memo_compute(key, l, compute, depth)
 
     # memoisation that is independent of the order of queries: a value computed while an *outer* key
     # was still in progress (and whose rendering therefore contains that key's ('loop', l) cut-off) is
@@ -242,11 +245,12 @@ class Resolver:
             self._loop_hits.add(key)
         return self._memo[key]
 
-    def _memo_compute(self, key, l, thunk):
+    def _memo_compute(self, key, l, thunk, depth=0):
         outer = self._loop_hits
         self._loop_hits = set()
         self._inprogress.add(key)
         self._memo[key] = ("loop", l)
+        t0 = self._trunc
         try:
             e = thunk()
         finally:
@@ -255,8 +259,13 @@ class Resolver:
             self._loop_hits = outer | hits
         if hits:
             del self._memo[key]
+            self._memo_trunc.pop(key, None)
         else:
             self._memo[key] = e
+            if self._trunc != t0:
+                self._memo_trunc[key] = depth      # cut off somewhere below: good enough at this depth or deeper, recomputed when asked from nearer the top
+            else:
+                self._memo_trunc.pop(key, None)
         return e
 
     def _def_expr(self, d, depth):
